@@ -463,3 +463,20 @@ def c07_f(ctx):
 def c07_g(ctx):
     from .C11 import check_column_helpers
     check_column_helpers(ctx)
+
+
+# Every SMC round is run by an inner rejection sampler with a threshold objective, and every
+# proposal comes from the constrained mixture sampler: their obligations are obligations of the
+# SMC population clauses too (n_samples particles below the threshold; positive prior density).
+from . import C01 as _C01   # noqa: E402
+from . import C13 as _C13   # noqa: E402
+
+obligation('C07-h', 'T5 T6', 'the inner rejection round keeps sampling until n_samples draws are '
+           'below its threshold, whatever the threshold value (shared with C01-f)', floor=6,
+           necessary='a round that stops on a stale batch estimate returns unfilled buffer rows '
+                     'as particles')(_C01.c01_f)
+
+obligation('C07-i', 'T5 T7 T3', 'proposals are filtered by finite prior log density and exactly '
+           'the requested number is returned (shared with C13-c)', floor=6,
+           necessary='a candidate whose prior log density is -inf or NaN becomes a particle '
+                     'without positive prior density')(_C13.c13_c)
